@@ -47,7 +47,7 @@ REQUIRED_COUNTERS = [
     "used_index_invariance", "cb_v1_roundtrip", "cb_v21_roundtrip", "isk_signature", "fresh_process", "leading_zero_keys",
 ]
 CASE_TIMEOUT_S = 1800
-WATCHDOG_S = {"quick": 1500, "thorough": 7200}
+WATCHDOG_S = {"quick": 3000, "thorough": 14400}  # wall-clock only (inconclusive); sized for a heavily shared machine
 
 RSA_KINDS = ("rsa2048", "rsa3072", "rsa4096")
 ECC_KINDS = ("p256", "p384", "p521")
@@ -63,7 +63,7 @@ BARE_FORMS = [f"{s}:{h}" for s in ("priv.pem", "priv.der", "pub.pem", "pub.der",
 CA_FORMS = [f"{s}:{h}" for s in ("ca.pem", "ca.der") for h in ("path", "bytes")] + ["ca.der:bytearray", "obj:ca"]
 CERT_FORMS = [f for f in BARE_FORMS + CA_FORMS if f.startswith(("nonca.", "ca.")) or f in ("obj:nonca", "obj:ca")]
 PATH_FORMS = [f for f in BARE_FORMS + CA_FORMS if f.endswith(":path")]
-CANON = "pub.pem:path"
+CANON = "nonca.der:path"  # parsed at the first attempt (certificate); a public-key PEM costs a failed private-key parse each time
 
 
 def is_ca_form(form: str) -> bool:
@@ -619,6 +619,10 @@ def eval_paths(ctx, workload: str, kms: list, paths: list, rng: random.Random, f
         others = [f for f in p.forms if f != p.canon]
         for pos in range(n):
             chosen = others if forms_per_pos >= len(others) else rng.sample(others, forms_per_pos)
+            if kms[pos].key["type"] == "rsa" and ref.rsa_bits(kms[pos].key) >= 3072:
+                # loading a big RSA private key costs ~0.1 s (key validation): one private-key form per position and path
+                priv = [f for f in chosen if f.startswith(("priv.", "obj:priv"))]
+                chosen = [f for f in chosen if f not in priv[1:]]
             for f in chosen:
                 forms = list(forms0)
                 forms[pos] = f
